@@ -327,3 +327,284 @@ Proof.
       rewrite pu_cons_other by (apply must_escape_pct; exact He).
       rewrite IH by exact Hb. destruct (path_unescape t); reflexivity.
 Qed.
+
+(* ------------------------------------------------------------------ *)
+(* 5. the body of func_init with its three slices resolved             *)
+(* ------------------------------------------------------------------ *)
+
+(* what func_init builds from Complete, ImportPath and the text after the
+   separating '.' *)
+Definition finish (complete ip name0 : bytes) : Func :=
+  let name :=
+    match last_index_byte name0 b_space with
+    | Some idx =>
+        let cut := firstn idx name0 in
+        match strip_suffix in_goroutine_suffix cut with
+        | Some n => n
+        | None => name0
+        end
+    | None => name0
+    end in
+  let dir := match last_index_byte ip b_slash with Some i => skipn (S i) ip | None => ip end in
+  let is_main := beq ip (s2b "main") in
+  let exported :=
+    if is_main then beq name (s2b "main")
+    else match last_opt (split name [b_dot]) with
+         | Some part => first_rune_upper_fixed part
+         | None => true
+         end in
+  mkFunc complete ip dir name exported is_main.
+
+Lemma body_neg : forall raw complete,
+  func_init_body raw complete (-1) = Ok (Some (finish complete [] complete)).
+Proof.
+  intros raw complete. unfold func_init_body.
+  change (0 <? -1)%Z with false. cbv iota. unfold bind at 1.
+  change (-1 =? -1)%Z with true. cbv iota. unfold bind at 1.
+  rewrite go_slice_ok; [|simpl; lia|simpl; lia|lia].
+  change (Z.to_nat (-1 + 1)) with 0. rewrite Nat.sub_0_r, Nat2Z.id.
+  change (skipn 0 complete) with complete. rewrite firstn_all.
+  unfold bind. reflexivity.
+Qed.
+
+Lemma body_dot : forall pre post c1 c2,
+  path_unescape (pre ++ 46%N :: post) = Some (c1 ++ 46%N :: c2) ->
+  path_unescape pre = Some c1 ->
+  func_init_body (pre ++ 46%N :: post) (c1 ++ 46%N :: c2) (Z.of_nat (List.length pre)) =
+  Ok (Some (finish (c1 ++ 46%N :: c2) c1 c2)).
+Proof.
+  intros pre post c1 c2 Hpu Hpre1.
+  destruct (pu_split_dot _ _ _ Hpu) as (d1 & d2 & H1 & H2 & Hc & Hlen).
+  rewrite Hpre1 in H1. injection H1 as H1. subst d1. clear H2 Hc d2.
+  unfold func_init_body.
+  assert (Hpre : (if (0 <? Z.of_nat (List.length pre))%Z
+                  then go_slice (pre ++ 46%N :: post) 0 (Z.of_nat (List.length pre))
+                  else Ok []) = Ok pre).
+  { destruct (0 <? Z.of_nat (List.length pre))%Z eqn:Hpos.
+    - rewrite go_slice_ok; [|lia|lia|rewrite app_length; lia].
+      f_equal. change (Z.to_nat 0) with 0. rewrite Nat.sub_0_r. simpl skipn.
+      rewrite Nat2Z.id. apply firstn_app_exact.
+    - apply Z.ltb_ge in Hpos. destruct pre; [reflexivity|simpl in Hpos; lia]. }
+  rewrite Hpre. unfold bind at 1.
+  assert (Hend : (if (0 <? Z.of_nat (List.length pre))%Z
+                  then (Z.of_nat (List.length pre) - 2 * Z.of_nat (count_byte pre b_percent))%Z
+                  else Z.of_nat (List.length pre)) = Z.of_nat (List.length c1)).
+  { unfold b_percent. destruct (0 <? Z.of_nat (List.length pre))%Z eqn:Hpos.
+    - lia.
+    - apply Z.ltb_ge in Hpos. lia. }
+  rewrite Hend.
+  assert (Hne : (Z.of_nat (List.length c1) =? -1)%Z = false) by (apply Z.eqb_neq; lia).
+  rewrite Hne.
+  assert (Hs1 : go_slice (c1 ++ 46%N :: c2) 0 (Z.of_nat (List.length c1)) = Ok c1).
+  { rewrite go_slice_ok; [|lia|lia|rewrite app_length; lia].
+    f_equal. change (Z.to_nat 0) with 0. rewrite Nat.sub_0_r. simpl skipn.
+    rewrite Nat2Z.id. apply firstn_app_exact. }
+  rewrite Hs1. unfold bind at 1.
+  assert (Hs2 : go_slice (c1 ++ 46%N :: c2) (Z.of_nat (List.length c1) + 1)
+                  (Z.of_nat (List.length (c1 ++ 46%N :: c2))) = Ok c2).
+  { rewrite go_slice_ok; [|lia|rewrite app_length; simpl List.length; lia|lia].
+    f_equal.
+    replace (Z.to_nat (Z.of_nat (List.length c1) + 1)) with (S (List.length c1)) by lia.
+    rewrite skipn_S_app_cons. rewrite Nat2Z.id.
+    apply firstn_all2. rewrite app_length. simpl List.length. lia. }
+  rewrite Hs2. unfold bind. reflexivity.
+Qed.
+
+(* ------------------------------------------------------------------ *)
+(* 6. the name: " in goroutine N", the last '.', the first rune         *)
+(* ------------------------------------------------------------------ *)
+
+Lemma strip_suffix_app : forall lit a, strip_suffix lit (a ++ lit) = Some a.
+Proof.
+  intros lit a. unfold strip_suffix, has_suffix.
+  assert (Hl : List.length (a ++ lit) - List.length lit = List.length a)
+    by (rewrite app_length; lia).
+  rewrite Hl, skipn_app_exact, beq_refl, firstn_app_exact.
+  assert (Hle : Nat.leb (List.length lit) (List.length (a ++ lit)) = true)
+    by (apply Nat.leb_le; rewrite app_length; lia).
+  rewrite Hle. reflexivity.
+Qed.
+
+Lemma has_prefix_nil : forall s, has_prefix s [] = true.
+Proof. intros [|x s]; reflexivity. Qed.
+
+Lemma split_dot_last : forall fuel s cur, List.length s < fuel ->
+  last_opt (split_go fuel s [46%N] cur) =
+  Some (match last_index_byte s 46 with Some i => skipn (S i) s | None => rev cur ++ s end).
+Proof.
+  induction fuel as [|f IH]; intros s cur Hlen; [lia|].
+  destruct s as [|x s].
+  - simpl. rewrite app_nil_r. reflexivity.
+  - simpl in Hlen.
+    change (split_go (S f) (x :: s) [46%N] cur)
+      with (if N.eqb x 46 && has_prefix s [] then rev cur :: split_go f s [46%N] []
+            else split_go f s [46%N] (x :: cur)).
+    rewrite has_prefix_nil.
+    change (last_index_byte (x :: s) 46)
+      with (match last_index_byte s 46 with
+            | Some i => Some (S i)
+            | None => if N.eqb x 46 then Some 0 else None
+            end).
+    rewrite andb_true_r.
+    destruct (N.eqb x 46) eqn:Hx.
+    + assert (IH' := IH s [] ltac:(lia)).
+      destruct (split_go f s [46%N] []) as [|y l] eqn:Hsp; [discriminate|].
+      change (last_opt (rev cur :: y :: l)) with (last_opt (y :: l)).
+      rewrite IH'. destruct (last_index_byte s 46) as [i|]; reflexivity.
+    + rewrite (IH s (x :: cur)) by lia.
+      destruct (last_index_byte s 46) as [i|]; [reflexivity|].
+      simpl rev. rewrite <- app_assoc. reflexivity.
+Qed.
+
+Lemma split_dot_after_last : forall name,
+  last_opt (split name [b_dot]) = Some (after_last 46 name).
+Proof.
+  intros name. unfold split, b_dot, after_last.
+  rewrite split_dot_last by lia. reflexivity.
+Qed.
+
+Lemma in_goroutine_suffix_sp : s2b " in goroutine " = in_goroutine_suffix ++ [32%N].
+Proof. reflexivity. Qed.
+
+Lemma digit_not : forall c, is_digit c = false -> forall l, forallb is_digit l = true -> ~ In c l.
+Proof. intros c Hc l Hl. exact (forallb_not_in is_digit c l Hc Hl). Qed.
+
+Lemma name_no_byte : forall c n, name_byte_ok c = false -> wf_name n = true -> ~ In c n.
+Proof. intros c n Hc Hn. exact (forallb_not_in name_byte_ok c n Hc Hn). Qed.
+
+Lemma finish_name : forall complete ip name gid,
+  wf_name name = true ->
+  finish complete ip (name ++ in_goroutine_text gid) =
+  mkFunc complete ip (after_last 47 ip) name
+    (if beq ip (s2b "main") then beq name (s2b "main") else rune_upper_fixed (after_last 46 name))
+    (beq ip (s2b "main")).
+Proof.
+  intros complete ip name gid Hwf.
+  assert (Hname :
+    match last_index_byte (name ++ in_goroutine_text gid) b_space with
+    | Some idx =>
+        match strip_suffix in_goroutine_suffix (firstn idx (name ++ in_goroutine_text gid)) with
+        | Some n => n
+        | None => name ++ in_goroutine_text gid
+        end
+    | None => name ++ in_goroutine_text gid
+    end = name).
+  { unfold b_space. destruct gid as [n|]; unfold in_goroutine_text.
+    - rewrite in_goroutine_suffix_sp. rewrite <- app_assoc.
+      change ([32%N] ++ N_to_dec n) with (32%N :: N_to_dec n).
+      rewrite app_assoc.
+      rewrite last_index_byte_last by (apply digit_not; [reflexivity|apply N_to_dec_digits]).
+      rewrite firstn_app_exact, strip_suffix_app. reflexivity.
+    - rewrite app_nil_r. rewrite last_index_byte_none; [reflexivity|].
+      apply name_no_byte; [reflexivity|exact Hwf]. }
+  unfold finish. cbv zeta. rewrite Hname. rewrite split_dot_after_last.
+  reflexivity.
+Qed.
+
+(* ------------------------------------------------------------------ *)
+(* 7. the round trip                                                   *)
+(* ------------------------------------------------------------------ *)
+
+(* " in goroutine N" contains neither '%', '.' nor '/' *)
+Lemma suffix_no_byte : forall c gid,
+  is_digit c = false -> ~ In c (s2b " in goroutine ") -> ~ In c (in_goroutine_text gid).
+Proof.
+  intros c gid Hd Hc. destruct gid as [n|]; unfold in_goroutine_text.
+  - intros H. apply in_app_or in H. destruct H as [H|H]; [exact (Hc H)|].
+    exact (digit_not c Hd _ (N_to_dec_digits n) H).
+  - intros H. exact H.
+Qed.
+
+Lemma not_in_lit : forall c, negb (existsb (N.eqb c) (s2b " in goroutine ")) = true ->
+  ~ In c (s2b " in goroutine ").
+Proof.
+  intros c H. apply existsb_eqb_false. apply negb_true_iff. exact H.
+Qed.
+
+Lemma suffix_no_pct : forall gid, ~ In 37%N (in_goroutine_text gid).
+Proof. intros gid. apply suffix_no_byte; [reflexivity|apply not_in_lit; reflexivity]. Qed.
+Lemma suffix_no_dot : forall gid, ~ In 46%N (in_goroutine_text gid).
+Proof. intros gid. apply suffix_no_byte; [reflexivity|apply not_in_lit; reflexivity]. Qed.
+Lemma suffix_no_slash : forall gid, ~ In 47%N (in_goroutine_text gid).
+Proof. intros gid. apply suffix_no_byte; [reflexivity|apply not_in_lit; reflexivity]. Qed.
+
+Lemma not_in_app : forall (c : N) a b, ~ In c a -> ~ In c b -> ~ In c (a ++ b).
+Proof. intros c a b Ha Hb H. apply in_app_or in H. destruct H as [H|H]; [exact (Ha H)|exact (Hb H)]. Qed.
+
+Lemma func_init_spkg : forall p n gid,
+  forallb (fun c => (c <? 256)%N) p = true -> wf_name n = true ->
+  func_init (sym_raw (SPkg p n) ++ in_goroutine_text gid) =
+  Ok (Some (func_of (SPkg p n) (in_goroutine_text gid))).
+Proof.
+  intros p n gid Hp Hn.
+  set (sfx := in_goroutine_text gid).
+  assert (Hn37 : ~ In 37%N n) by (apply name_no_byte; [reflexivity|exact Hn]).
+  assert (Hn47 : ~ In 47%N n) by (apply name_no_byte; [reflexivity|exact Hn]).
+  assert (Hraw : sym_raw (SPkg p n) ++ sfx = path_to_prefix p ++ 46%N :: (n ++ sfx)).
+  { unfold sym_raw. rewrite <- !app_assoc. reflexivity. }
+  rewrite Hraw. rewrite func_init_unfold.
+  rewrite end_pkg0_ptp; [|exact Hp|apply not_in_app; [exact Hn47|apply suffix_no_slash]].
+  assert (Hpu : path_unescape (path_to_prefix p ++ 46%N :: (n ++ sfx)) = Some (p ++ 46%N :: (n ++ sfx))).
+  { rewrite pu_ptp by exact Hp. rewrite pu_no_pct; [reflexivity|].
+    intros [H|H]; [discriminate|].
+    exact (not_in_app _ _ _ Hn37 (suffix_no_pct gid) H). }
+  rewrite Hpu.
+  assert (Hpre : path_unescape (path_to_prefix p) = Some p).
+  { rewrite <- (app_nil_r (path_to_prefix p)). rewrite pu_ptp by exact Hp.
+    rewrite pu_nil. simpl. rewrite app_nil_r. reflexivity. }
+  rewrite (body_dot _ _ _ _ Hpu Hpre).
+  unfold sfx. rewrite finish_name by exact Hn.
+  reflexivity.
+Qed.
+
+Lemma func_init_sbare : forall n gid,
+  wf_name n = true ->
+  func_init (sym_raw (SBare n) ++ in_goroutine_text gid) =
+  Ok (Some (func_of (SBare n) (in_goroutine_text gid))).
+Proof.
+  intros n gid Hn.
+  set (sfx := in_goroutine_text gid).
+  assert (Hn37 : ~ In 37%N n) by (apply name_no_byte; [reflexivity|exact Hn]).
+  assert (Hn47 : ~ In 47%N n) by (apply name_no_byte; [reflexivity|exact Hn]).
+  assert (Hpu : path_unescape (n ++ sfx) = Some (n ++ sfx)).
+  { apply pu_no_pct. apply not_in_app; [exact Hn37|apply suffix_no_pct]. }
+  unfold sym_raw. rewrite func_init_unfold. rewrite Hpu.
+  unfold func_of.
+  destruct (index_byte n 46) as [i|] eqn:Hi.
+  - destruct (index_byte_not_in _ _ _ Hi) as (pre & post & Hs & Hl & Hpre46).
+    subst n i.
+    assert (Hwf : wf_name pre = true /\ wf_name post = true).
+    { unfold wf_name in Hn. rewrite forallb_app in Hn. apply andb_true_iff in Hn as [H1 H2].
+      cbn [forallb] in H2. apply andb_true_iff in H2 as [_ H2]. split; assumption. }
+    destruct Hwf as [Hwpre Hwpost].
+    rewrite firstn_app_exact, skipn_S_app_cons.
+    assert (Hraw : (pre ++ 46%N :: post) ++ sfx = pre ++ 46%N :: (post ++ sfx)).
+    { rewrite <- app_assoc. reflexivity. }
+    rewrite Hraw in *.
+    assert (Hpre47 : ~ In 47%N pre) by (apply name_no_byte; [reflexivity|exact Hwpre]).
+    assert (Hpost47 : ~ In 47%N post) by (apply name_no_byte; [reflexivity|exact Hwpost]).
+    assert (Hpre37 : ~ In 37%N pre) by (apply name_no_byte; [reflexivity|exact Hwpre]).
+    rewrite end_pkg0_noslash;
+      [|exact Hpre47|exact Hpre46|apply not_in_app; [exact Hpost47|apply suffix_no_slash]].
+    rewrite (body_dot _ _ _ _ Hpu (pu_no_pct pre Hpre37)).
+    unfold sfx. rewrite finish_name by exact Hwpost.
+    reflexivity.
+  - apply index_byte_none_inv in Hi.
+    rewrite end_pkg0_none;
+      [|apply not_in_app; [exact Hn47|apply suffix_no_slash]
+       |apply not_in_app; [exact Hi|apply suffix_no_dot]].
+    rewrite body_neg.
+    unfold sfx. rewrite finish_name by exact Hn.
+    reflexivity.
+Qed.
+
+Theorem func_init_sym_raw : forall s gid,
+  wf_sym s = true ->
+  func_init (sym_raw s ++ in_goroutine_text gid) = Ok (Some (func_of s (in_goroutine_text gid))).
+Proof.
+  intros [p n|n] gid Hwf; unfold wf_sym in Hwf; apply andb_true_iff in Hwf as [H1 H2].
+  - apply func_init_spkg; assumption.
+  - apply func_init_sbare; assumption.
+Qed.
+
+Print Assumptions func_init_sym_raw.
